@@ -86,6 +86,8 @@ def run(ctx):
             r.fail(rule2, 'row:' + name, 'row %s handles an expired timer without a queued publish request but does not count the lifetime down: an abandoned subscription would never expire' % name, loc=b.loc)
     r.floor(rule2, 'idle_timer_rows', m, 2)
     decision_table_rules(ctx)
+    from .substate import tick_wiring
+    tick_wiring(ctx)
     r.assumptions += ['keep_alive_counter is never 0 (reset to max_keep_alive_count >= 1, decremented only when > 1)']
 
 
